@@ -259,7 +259,9 @@ def ty_pool(params):
                  {"k": "tuple", "args": [T(t), {"k": "conc", "n": 0}]},
                  {"k": "array", "of": T(t), "len": 0}, {"k": "fn", "args": [T(t)], "ret": {"k": "conc", "n": 0}},
                  {"k": "ptr", "of": T(t)}, {"k": "assoc", "i": t, "n": 0}, {"k": "qassoc", "of": T(t), "n": 0},
-                 app("::std::vec::Vec", app("::core::option::Option", T(t)))]
+                 app("::std::vec::Vec", app("::core::option::Option", T(t))),
+                 # a type from elsewhere whose last path segment is the name of the annotated item itself (`X`): not a self-reference
+                 app("::dx_support::samename::X", T(t))]
         for l in lts:
             pool.append({"k": "ref", "lt": l, "of": T(t)})
         for c in cons:
@@ -330,6 +332,8 @@ def pool_for(t, ps):
         txt = json.dumps(ty)
         concrete = not any(p in txt for p in ('"param"', '"assoc"', '"array"'))
         has_tp = '"param"' in txt or '"assoc"' in txt
+        if "samename" in txt and (strict_conc or t in ("Deref", "DerefMut")):
+            return False                # (the wrapper implements the nine basic traits only)
         if strict_conc:
             if ty["k"] == "conc":
                 return True            # rendered as i8 for these traits
